@@ -173,7 +173,13 @@ func (am AppModule) EndBlock(ctx sdk.Context, _ abci.RequestEndBlock) []abci.Val
 		validatorList := make(map[string]*big.Int)
 		for _, vu := range validatorUpdates {
 			pubKey, _ := cryptocodec.FromTmProtoPublicKey(vu.PubKey)
-			validatorList[sdk.ConsAddress(pubKey.Address()).String()] = big.NewInt(vu.Power)
+			consAddr := sdk.ConsAddress(pubKey.Address()).String()
+			validatorList[consAddr] = big.NewInt(vu.Power)
+			if vu.Power == 0 {
+				// a validator that leaves the set must not keep nonces: the round clean-up below only
+				// covers the validators of the new set, and a nonce entry is what the fee-less ante path checks
+				am.keeper.RemoveNonceWithValidator(ctx, consAddr)
+			}
 		}
 		// update validator set information in cache
 		cs.AddCache(cache.ItemV(validatorList))
